@@ -11,7 +11,6 @@ use crate::core::{self, Log, Property, Report, Tier, Violation};
 use crate::wirekit2::table::{EPH_HI, EPH_LO};
 use crate::wirekit2::{desc, ek, kind, parse_ip, ports, Driver, NetCfg, PktKind, WakeFlag};
 use serde::{Deserialize, Serialize};
-use std::collections::BTreeMap;
 use std::future::Future;
 use std::net::{IpAddr, SocketAddr};
 use std::pin::Pin;
@@ -362,35 +361,40 @@ impl<'a> Sim<'a> {
 
     fn poll_connect(&mut self, c: usize) {
         let from = self.sc.conns[c].from;
-        let st = &mut self.cs[c];
-        let (Some(f), Some(flag)) = (st.fut.as_mut(), st.flag.as_ref()) else { return };
-        if !flag.take() {
-            return;
-        }
-        if let Poll::Ready(r) = self.d.poll_fut(from, &flag.waker, f.as_mut()) {
-            let f = st.fut.take();
-            self.d.on(from, || drop(f));
-            let k = match r {
-                Ok(s) => {
-                    st.client_local = self.d.on(from, || s.local_addr()).ok();
-                    let pa = self.d.on(from, || s.peer_addr()).ok();
-                    st.client = Some(s);
-                    if pa != st.target {
-                        let t = st.target;
-                        self.fail("AddressMismatch", format!("c{c}: connected stream says peer {pa:?}, connect went to {t:?}"));
-                        return;
-                    }
-                    "Ok".to_string()
+        let r = {
+            let st = &mut self.cs[c];
+            let (Some(f), Some(flag)) = (st.fut.as_mut(), st.flag.as_ref()) else { return };
+            if !flag.take() {
+                return;
+            }
+            match self.d.poll_fut(from, &flag.waker, f.as_mut()) {
+                Poll::Ready(r) => r,
+                Poll::Pending => return,
+            }
+        };
+        let f = self.cs[c].fut.take();
+        self.d.on(from, || drop(f));
+        let k = match r {
+            Ok(s) => {
+                let la = self.d.on(from, || s.local_addr()).ok();
+                let pa = self.d.on(from, || s.peer_addr()).ok();
+                self.cs[c].client_local = la;
+                self.cs[c].client = Some(s);
+                if pa != self.cs[c].target {
+                    let t = self.cs[c].target;
+                    self.fail("AddressMismatch", format!("c{c}: connected stream says peer {pa:?}, connect went to {t:?}"));
+                    return;
                 }
-                Err(e) => {
-                    st.client_closed = true;
-                    ek(&e)
-                }
-            };
-            st.result = Some((k.clone(), self.round));
-            self.log.ev(format!("r{} c{c}: connect -> {k}", self.round));
-            self.log.tag(&format!("connect-{k}"));
-        }
+                "Ok".to_string()
+            }
+            Err(e) => {
+                self.cs[c].client_closed = true;
+                ek(&e)
+            }
+        };
+        self.cs[c].result = Some((k.clone(), self.round));
+        self.log.ev(format!("r{} c{c}: connect -> {k}", self.round));
+        self.log.tag(&format!("connect-{k}"));
     }
 
     fn poll_accepts(&mut self) {
@@ -520,7 +524,6 @@ impl<'a> Sim<'a> {
         for p in out {
             let idx = self.pkt_idx;
             self.pkt_idx += 1;
-            self.wire_pkts += 1;
             self.observe_wire(&p);
             let f = self.fate(idx);
             self.note(|| format!("wire #{idx} {}{}", desc(&p), f.map(|f| format!("  <= {f:?}")).unwrap_or_default()));
@@ -633,5 +636,664 @@ fn side(client: bool) -> &'static str {
         "client"
     } else {
         "accepted end"
+    }
+}
+
+// ------------------------------------------------------------------------------------------------
+// timeline, oracle (a), epilogue
+
+fn other_listener_covers(sim: &Sim<'_>, dst: SocketAddr, from: u64, to: u64) -> bool {
+    // some listener bound for `dst` at some instant of [from, to]
+    sim.ls.iter().any(|l| l.addr.port() == dst.port() && l.addr.is_ipv4() == dst.is_ipv4() && (l.addr.ip() == dst.ip() || l.addr.ip().is_unspecified()) && l.dropped_at.map(|d| d > from).unwrap_or(true) && to >= from)
+}
+
+fn judge_connects(sim: &mut Sim<'_>) {
+    let now = sim.round;
+    let clean = sim.sc.faults.is_empty() && !sim.sc.reorder;
+    for c in 0..sim.cs.len() {
+        let st = &sim.cs[c];
+        let (Some(start), Some(dst)) = (st.started, st.target) else { continue };
+        if st.cancelled.is_some() {
+            continue;
+        }
+        let res = st.result.clone();
+        let end = res.as_ref().map(|r| r.1).unwrap_or(now);
+        let kindr = res.as_ref().map(|r| r.0.clone()).unwrap_or_else(|| "Pending".into());
+        let spec = &sim.sc.conns[c];
+        let backlog = sim.sc.cfg.backlog;
+        let covered = other_listener_covers(sim, dst, start, end);
+        let mut verdict: Option<(&'static str, String)> = None;
+        match spec.to {
+            Some(l) if sim.ls[l].dropped_at.map(|d| d > end).unwrap_or(true) => {
+                // listening during the whole attempt
+                let others = (0..sim.cs.len())
+                    .filter(|&j| j != c && sim.sc.conns[j].to == Some(l) && sim.cs[j].started.map(|s| s <= end).unwrap_or(false) && !sim.cs[j].accepted_round.map(|a| a < start).unwrap_or(false))
+                    .count();
+                let occupants = (0..sim.cs.len())
+                    .filter(|&j| {
+                        j != c
+                            && sim.sc.conns[j].to == Some(l)
+                            && sim.cs[j].result.as_ref().map(|r| r.0 == "Ok" && r.1 < start).unwrap_or(false)
+                            && sim.cs[j].accepted_round.map(|a| a > end).unwrap_or(true)
+                    })
+                    .count();
+                if others < backlog {
+                    if kindr != "Ok" {
+                        let class = if kindr == "Pending" { "ConnectStall" } else { "ConnectFailed" };
+                        verdict = Some((class, format!("c{c}: connect h{} -> {dst} started at r{start} gave {kindr} by r{end}; listener l{l} was bound the whole time and at most {others} other connections could occupy its backlog of {backlog}", spec.from)));
+                    } else {
+                        sim.rep.probes.inc("connect_ok_judged");
+                    }
+                } else if clean && occupants >= backlog {
+                    if kindr == "Ok" {
+                        verdict = Some(("BacklogExceeded", format!("c{c}: connect to {dst} succeeded although {occupants} established, un-accepted connections filled the backlog of {backlog} during the whole attempt")));
+                    } else {
+                        sim.rep.probes.inc("connect_blocked_by_full_backlog");
+                    }
+                } else {
+                    sim.rep.probes.inc("connect_backlog_uncertain_unjudged");
+                }
+            }
+            Some(l) if sim.ls[l].dropped_at.map(|d| d <= start).unwrap_or(false) && !covered => {
+                if kindr != "ConnectionRefused" {
+                    let class = if kindr == "Pending" { "ConnectStall" } else { "ConnectWrongResult" };
+                    verdict = Some((class, format!("c{c}: connect to {dst} started at r{start} after listener l{l} had been dropped; result {kindr}, ConnectionRefused required")));
+                } else {
+                    sim.rep.probes.inc("connect_refused_judged");
+                }
+            }
+            None if !covered => {
+                if kindr != "ConnectionRefused" {
+                    let class = if kindr == "Pending" { "ConnectStall" } else { "ConnectWrongResult" };
+                    verdict = Some((class, format!("c{c}: connect to {dst} where nothing listens gave {kindr}, ConnectionRefused required")));
+                } else {
+                    sim.rep.probes.inc("connect_refused_judged");
+                }
+            }
+            _ => {
+                sim.rep.probes.inc("connect_listener_changed_unjudged");
+                if kindr == "Ok" && !covered {
+                    verdict = Some(("ConnectWrongResult", format!("c{c}: connect to {dst} succeeded although no listener was bound there at any time of the attempt")));
+                }
+            }
+        }
+        if let Some((cl, m)) = verdict {
+            sim.fail(cl, m);
+            return;
+        }
+    }
+}
+
+fn all_resolved(sim: &Sim<'_>) -> bool {
+    sim.cs.iter().all(|c| c.started.is_none() || c.cancelled.is_some() || c.result.is_some())
+}
+
+fn next_port(p: u16) -> u16 {
+    if p == EPH_HI {
+        EPH_LO
+    } else {
+        p + 1
+    }
+}
+
+/// Rotate host `h`'s ephemeral cursor so that the next allocation hands out `want`.
+fn spin_to(sim: &mut Sim<'_>, h: usize, want: u16) -> bool {
+    let wild: IpAddr = "0.0.0.0".parse().unwrap();
+    for _ in 0..17_000 {
+        let Some(Ok(u)) = sim.d.once(h, UdpSocket::bind((wild, 0))) else { return false };
+        let p = sim.d.on(h, || u.local_addr()).map(|a| a.port()).unwrap_or(0);
+        sim.d.on(h, || drop(u));
+        if next_port(p) == want {
+            return true;
+        }
+    }
+    false
+}
+
+fn reuse_phase(sim: &mut Sim<'_>) {
+    let tag = if sim.aborted_handshake { "AbortedHandshake" } else { "" };
+    // (d) the listener addresses can be bound again
+    for l in 0..sim.ls.len() {
+        let addr = sim.ls[l].addr;
+        match sim.d.once(0, TcpListener::bind(addr)) {
+            Some(Ok(s)) => {
+                sim.ls[l].sock = Some(s);
+                sim.ls[l].bound = true;
+                sim.ls[l].dropped_at = None;
+                sim.log.ev(format!("reuse: l{l} bound again at {addr}"));
+                sim.rep.probes.inc("listener_rebound");
+            }
+            Some(Err(e)) => {
+                sim.fail(&format!("RebindFailed{tag}"), format!("after every socket of the run was closed and reclaimed, binding a listener at {addr} again fails with {}", ek(&e)));
+                return;
+            }
+            None => {
+                sim.herr = Some("bind pending".into());
+                return;
+            }
+        }
+    }
+    // ... and the same 4-tuples carry new connections
+    let olds: Vec<(usize, SocketAddr, SocketAddr, usize)> = (0..sim.cs.len())
+        .filter_map(|c| {
+            let st = &sim.cs[c];
+            let l = sim.sc.conns[c].to?;
+            let src = st.client_local.or(st.wire_src)?;
+            Some((sim.sc.conns[c].from, src, st.target?, l))
+        })
+        .take(2)
+        .collect();
+    for (h, src, dst, l) in olds {
+        if h == 0 || src.ip().is_loopback() {
+            continue;
+        }
+        if !spin_to(sim, h, src.port()) {
+            sim.rep.probes.inc("reuse_port_not_lined_up");
+            continue;
+        }
+        sim.rep.probes.inc("ephemeral_cursor_wrapped");
+        let mut fut: Option<ConnFut> = Some(Box::pin(TcpStream::connect(dst)));
+        let flag = WakeFlag::new();
+        let mut res = None;
+        let faults_off = sim.pkt_idx;
+        let _ = faults_off;
+        for _ in 0..(q_rounds(&sim.sc.cfg) + 8) {
+            if flag.take() {
+                if let Poll::Ready(r) = sim.d.poll_fut(h, &flag.waker, fut.as_mut().unwrap().as_mut()) {
+                    res = Some(r);
+                    break;
+                }
+            }
+            sim.wire_round();
+        }
+        let f = fut.take();
+        sim.d.on(h, || drop(f));
+        let kindr = match &res {
+            None => "Pending".to_string(),
+            Some(Ok(_)) => "Ok".to_string(),
+            Some(Err(e)) => ek(e),
+        };
+        sim.log.ev(format!("reuse: connect h{h} -> {dst} wanting source port {} : {kindr}", src.port()));
+        let Some(Ok(st)) = res else {
+            sim.fail(&format!("ReuseFailed{tag}"), format!("a new connect h{h} -> {dst} whose ephemeral port came round to {} again (the 4-tuple of an earlier, fully closed connection) gave {kindr}; listener l{l} is bound and idle", src.port()));
+            return;
+        };
+        let la = sim.d.on(h, || st.local_addr()).ok();
+        let lined_up = la == Some(src);
+        // the accepted end
+        let mut got = None;
+        for _ in 0..(q_rounds(&sim.sc.cfg) + 4) {
+            sim.wire_round();
+            let r = {
+                let ll = &sim.ls[l];
+                sim.d.with_cx(0, std::task::Waker::noop(), |cx| ll.sock.as_ref().unwrap().poll_accept(cx))
+            };
+            if let Poll::Ready(Ok((s, peer))) = r {
+                got = Some((s, peer));
+                break;
+            }
+        }
+        let ok = matches!(&got, Some((_, peer)) if Some(*peer) == la);
+        if let Some((s, _)) = got {
+            sim.d.on(0, || drop(s));
+        }
+        sim.d.on(h, || drop(st));
+        if !ok {
+            sim.fail(&format!("ReuseFailed{tag}"), format!("the re-made connection {la:?} -> {dst} (same 4-tuple as an earlier closed one: {lined_up}) was never handed out by accept on l{l}"));
+            return;
+        }
+        if lined_up {
+            sim.rep.probes.inc("four_tuple_reused");
+        } else {
+            sim.rep.probes.inc("reuse_port_not_lined_up");
+        }
+    }
+    let q = q_rounds(&sim.sc.cfg);
+    if !sim.quiesce(q, true) {
+        return;
+    }
+    sim.check_counts("checkpoint C (after re-use)");
+    if sim.stopped() {
+        return;
+    }
+    for l in 0..sim.ls.len() {
+        if let Some(s) = sim.ls[l].sock.take() {
+            sim.d.on(0, || drop(s));
+            sim.ls[l].bound = false;
+        }
+    }
+    if !sim.quiesce(q, false) {
+        return;
+    }
+    sim.check_counts("checkpoint D (end)");
+}
+
+fn execute(sim: &mut Sim<'_>) {
+    let sc = sim.sc;
+    for (l, spec) in sc.listeners.iter().enumerate() {
+        let addr = SocketAddr::new(parse_ip(&spec.ip), spec.port);
+        match sim.d.once(0, TcpListener::bind(addr)) {
+            Some(Ok(s)) => {
+                sim.ls.push(LState { addr, sock: Some(s), armed: 0, flag: WakeFlag::new(), dropped_at: None, bound: true });
+                sim.log.ev(format!("l{l}: listening at {addr} backlog {}", sc.cfg.backlog));
+            }
+            other => {
+                sim.herr = Some(format!("initial bind of {addr} failed: {:?}", other.map(|r| r.map(|_| ()).map_err(|e| e.kind()))));
+                return;
+            }
+        }
+    }
+    let last = sc.timeline.last().map(|t| t.0).unwrap_or(0);
+    let mut ti = 0;
+    for r in 0..=last {
+        while ti < sc.timeline.len() && sc.timeline[ti].0 <= r {
+            let a = sc.timeline[ti].1.clone();
+            sim.act(&a);
+            ti += 1;
+            if sim.stopped() {
+                return;
+            }
+        }
+        sim.wire_round();
+        if sim.stopped() {
+            return;
+        }
+    }
+    // grace: every connect that is still waiting gets the full retransmit budget after the last fault
+    let q = q_rounds(&sc.cfg);
+    let mut waited = 0;
+    while !all_resolved(sim) && waited < q + 6 + sim.last_fault_round.saturating_sub(sim.round) {
+        sim.wire_round();
+        waited += 1;
+        if sim.stopped() {
+            return;
+        }
+    }
+    for c in 0..sim.cs.len() {
+        sim.poll_connect(c);
+    }
+    judge_connects(sim);
+    if sim.stopped() {
+        return;
+    }
+    // ---- epilogue 1: both ends of everything are closed; listeners accept-and-close what is queued
+    sim.log.ev("epilogue: closing every connection end");
+    for c in 0..sim.cs.len() {
+        if sim.cs[c].fut.is_some() {
+            sim.act(&Act::Cancel { c });
+        }
+        sim.drop_end(c, true, "drop");
+        sim.drop_end(c, false, "drop");
+    }
+    let strays = std::mem::take(&mut sim.strays);
+    sim.d.on(0, || drop(strays));
+    sim.aborted_handshake = (0..sim.cs.len()).any(|c| {
+        let st = &sim.cs[c];
+        st.started.is_some() && sc.conns[c].to.is_some() && st.result.as_ref().map(|r| r.0 != "Ok").unwrap_or(true) && (st.syn_delivered_listening || sc.conns[c].from == 0)
+    });
+    if !sim.quiesce(q, true) {
+        if !sim.stopped() {
+            sim.fail("WireNeverQuiet", format!("after every connection end was closed the wire did not stay empty for {q} rounds within {} rounds", 8 * q + 40));
+        }
+        return;
+    }
+    // (b) completeness: a connection the connector saw established is handed out exactly once
+    for c in 0..sim.cs.len() {
+        let st = &sim.cs[c];
+        let Some(l) = sc.conns[c].to else { continue };
+        if st.result.as_ref().map(|r| r.0 == "Ok").unwrap_or(false) && st.accepted_round.is_none() && sim.ls[l].sock.is_some() {
+            let msg = format!("c{c}: connect {:?} -> {:?} returned Ok at r{}, listener l{l} stayed bound and accepted everything it was offered, yet this connection was never handed out", st.client_local, st.target, st.result.as_ref().unwrap().1);
+            sim.fail("NotAccepted", msg);
+            return;
+        }
+    }
+    sim.check_counts("checkpoint A (connections closed, listeners alive)");
+    if sim.stopped() {
+        return;
+    }
+    for l in 0..sim.ls.len() {
+        sim.act(&Act::DropListener { l });
+    }
+    if !sim.quiesce(q, false) {
+        return;
+    }
+    sim.check_counts("checkpoint B (listeners dropped)");
+    sim.wire_pkts = sim.pkt_idx;
+    if sim.stopped() || !sc.reuse {
+        return;
+    }
+    reuse_phase(sim);
+}
+
+fn run_inner(sc: &Scenario, keep: bool) -> (Report, u32) {
+    let addrs: Vec<Vec<IpAddr>> = sc.hosts.iter().map(|h| h.iter().map(|a| parse_ip(a)).collect()).collect();
+    let d = Driver::new(&addrs, &sc.cfg, |_| {});
+    let mut sim = Sim {
+        sc,
+        d,
+        log: Log::new(keep),
+        rep: Report::default(),
+        v: None,
+        herr: None,
+        cs: (0..sc.conns.len()).map(|_| CState::default()).collect(),
+        ls: Vec::new(),
+        strays: Vec::new(),
+        inflight: Vec::new(),
+        round: 0,
+        pkt_idx: 0,
+        last_fault_round: 0,
+        wire_pkts: 0,
+        nontrivial: false,
+        aborted_handshake: false,
+        udp_keep: Vec::new(),
+    };
+    let r = core::catch(|| execute(&mut sim));
+    let Sim { d, log, mut rep, mut v, herr, cs, ls, strays, udp_keep, nontrivial, wire_pkts, .. } = sim;
+    match r {
+        Ok(()) => {
+            for (c, st) in cs.into_iter().enumerate() {
+                let from = sc.conns[c].from;
+                let CState { fut, client, server, .. } = st;
+                d.on(from, || {
+                    drop(fut);
+                    drop(client)
+                });
+                d.on(0, || drop(server));
+            }
+            d.on(0, || {
+                drop(strays);
+                drop(ls);
+                drop(udp_keep)
+            });
+        }
+        Err(msg) => {
+            std::mem::forget((cs, ls, strays, udp_keep));
+            if v.is_none() {
+                v = Some(Violation::new("Panic", format!("turmoil-net panicked: {msg}")));
+            }
+        }
+    }
+    drop(d);
+    rep.abstract_digest = log.abs_digest();
+    rep.full_digest = log.full_digest();
+    rep.log = log.lines;
+    rep.violation = v;
+    rep.harness_error = herr;
+    rep.nontrivial = nontrivial;
+    rep.sim_ms = rep.steps;
+    (rep, wire_pkts)
+}
+
+// ------------------------------------------------------------------------------------------------
+// generator, variants, Property
+
+/// Known trigger (DESIGN O8): a server child that is aborted while still SynReceived is never
+/// reaped. It happens whenever a connector gives up (cancel) after its SYN reached a listener
+/// that answered. Guarded scenarios cancel only connects to ports nobody listens on.
+fn guard_trigger(sc: &Scenario) -> bool {
+    sc.timeline.iter().any(|(_, a)| matches!(a, Act::Cancel { c } if sc.conns[*c].to.is_some()))
+}
+
+fn gen_scenario(rng: &mut Rng, tier: Tier) -> Scenario {
+    let guarded = !rng.chance(1, 20);
+    let v6 = rng.chance(1, 6);
+    let addr = |h: usize, k: usize| if v6 { format!("fd00::{h}:{}", k + 1) } else { format!("10.0.{h}.{}", k + 1) };
+    let nclients = rng.usize(1, 2);
+    let mut hosts = vec![(0..rng.usize(1, 2)).map(|k| addr(0, k)).collect::<Vec<_>>()];
+    for h in 1..=nclients {
+        hosts.push(vec![addr(h, 0)]);
+    }
+    let wild = if v6 { "::" } else { "0.0.0.0" };
+    let nl = rng.usize(1, 2);
+    let listeners: Vec<ListenerSpec> = (0..nl).map(|l| ListenerSpec { ip: if rng.chance(1, 2) { wild.to_string() } else { rng.pick(&hosts[0]).clone() }, port: 9000 + l as u16 }).collect();
+    let cfg = NetCfg { retx_threshold: rng.range(2, 3) as u32, retx_max: rng.range(3, 5) as u32, backlog: rng.usize(1, 4) };
+    let nc = if tier == Tier::Thorough { rng.usize(1, 8) } else { rng.usize(1, 5) };
+    let mut conns = Vec::new();
+    let mut tl: Vec<(u32, Act)> = Vec::new();
+    let mut start = 0u32;
+    for c in 0..nc {
+        let from = if rng.chance(1, 6) { 0 } else { rng.usize(1, nclients) };
+        let to = if rng.chance(5, 6) { Some(rng.below(nl as u64) as usize) } else { None };
+        conns.push(ConnSpec { from, to, sel: rng.below(3) as u8 });
+        // up to 4 concurrent: the next one starts 0..3 rounds later, sometimes after a long gap
+        start += if rng.chance(1, 5) { rng.range(4, 9) as u32 } else { rng.range(0, 3) as u32 };
+        tl.push((start, Act::Connect { c }));
+        let mut t = start;
+        // the connecting end
+        let cancel_ok = !guarded || to.is_none();
+        if cancel_ok && rng.chance(if guarded { 1 } else { 2 }, 4) {
+            tl.push((start + rng.range(0, 4) as u32, Act::Cancel { c }));
+        }
+        for _ in 0..rng.usize(0, 4) {
+            t += rng.range(0, 3) as u32;
+            let a = match rng.weighted(&[3, 2, 2, 3]) {
+                0 => Act::Write { c, client: true, n: *rng.pick(&[1u16, 8, 100]) },
+                1 => Act::Read { c, client: true },
+                2 => Act::Shutdown { c, client: true },
+                _ => Act::Drop { c, client: true },
+            };
+            tl.push((t + 1, a));
+        }
+        // the accepting end
+        if let Some(l) = to {
+            if rng.chance(4, 5) {
+                let mut t = start + rng.range(0, 6) as u32;
+                tl.push((t, Act::Accept { l }));
+                for _ in 0..rng.usize(0, 4) {
+                    t += rng.range(0, 3) as u32;
+                    let a = match rng.weighted(&[3, 2, 2, 3]) {
+                        0 => Act::Write { c, client: false, n: *rng.pick(&[1u16, 8, 100]) },
+                        1 => Act::Read { c, client: false },
+                        2 => Act::Shutdown { c, client: false },
+                        _ => Act::Drop { c, client: false },
+                    };
+                    tl.push((t + 2, a));
+                }
+            }
+        }
+    }
+    if rng.chance(1, 4) {
+        let l = rng.below(nl as u64) as usize;
+        tl.push((rng.range(0, start as u64 + 6) as u32, Act::DropListener { l }));
+    }
+    tl.sort_by_key(|x| x.0);
+    let mut faults = Vec::new();
+    if rng.chance(1, 4) {
+        // a seeded multi-fault plan, inside the retransmit budget: at most retx_max-2 drops in
+        // total, delays shorter than one retransmit interval
+        let nd = rng.usize(1, (cfg.retx_max as usize - 2).max(1));
+        for _ in 0..nd {
+            let idx = rng.below(30) as u32;
+            let kind = if rng.bool() { FaultKind::Drop } else { FaultKind::Delay(rng.range(1, cfg.retx_threshold as u64) as u8) };
+            if !faults.iter().any(|f: &Fault| f.idx == idx) {
+                faults.push(Fault { idx, kind });
+            }
+        }
+    }
+    Scenario { guarded, cfg, hosts, listeners, conns, timeline: tl, faults, reorder: rng.chance(1, 8), reuse: rng.chance(1, 3) }
+}
+
+impl Property for C13 {
+    const ID: &'static str = "C13";
+    const LEVEL: &'static str = "fault_enumeration";
+    type Scenario = Scenario;
+
+    fn rule() -> String {
+        "seeded timelines: a server host (1-2 addresses, v4 or v6) with 1-2 listeners (wildcard or specific, backlog 1-4) and 1-2 client hosts; 1-5 (thorough 1-8) connections started 0-3 rounds apart (up to 4 concurrent) or after a gap (sequential), to a listener or to a port nobody listens on, from another host or from the server host itself; per connection a seeded list of client actions (cancel the pending connect at round +0..4, write 1/8/100 bytes, read, shutdown, drop) and, after a blocking accept armed at round +0..6 (or never), of accepted-end actions; optional listener drop at a seeded round; retx_threshold 2-3, retx_max 3-5. Faults: for each seeded timeline the fault-free packet sequence is recorded and the timeline is re-run once per packet position with that packet dropped and once with it delayed by retx_threshold+1 rounds (quick: positions < 24, thorough: < 48, thorough also delay 1); a quarter of the timelines carry a seeded multi-fault plan (<= retx_max-2 drops, delays) and an eighth deliver each round's packets in reverse order. Oracle: connect Ok iff a listener was bound during the whole attempt and the backlog certainly had room, ConnectionRefused iff nothing listened, not Ok when the backlog was certainly full (fault-free runs); every accepted stream matches exactly one attempt with mirrored addresses, every connection the connector saw established is handed out exactly once; after both ends of everything are closed and the wire stayed empty for Q = retx_threshold*(retx_max+2) rounds socket_counts(host) equals the listeners still open (checkpoint A) resp. zero after the listeners are dropped (B); a third of the runs then re-bind the listener addresses, rotate the client's ephemeral cursor once round the range and re-connect over the same 4-tuples (C, D). Non-trivial: some end closed/cancelled/shut down while its peer was not Established, or a listener was dropped with an un-accepted connection; distinct = digest of action kinds with the peer state at each close and outcome kinds".into()
+    }
+    fn components_real() -> Vec<&'static str> {
+        vec!["turmoil-net: kernel::tcp (handshake, accept_syn backlog, on_close, reap_closed, abort paths, retransmit), SocketTable (binding + connection index, PortAllocator), shim TcpListener / TcpStream (FdGuard on cancelled connect), netstat, verif::socket_counts hook"]
+    }
+    fn components_stub() -> Vec<&'static str> {
+        vec!["the wire (fault plan by packet index, reordering) and the hand-polled application timeline are the harness's; no tokio runtime"]
+    }
+    fn assumptions() -> Vec<String> {
+        vec![
+            "backlog occupancy is judged only when certain: room is certain when fewer other attempts than the backlog could be pending at the listener; fullness is certain only in fault-free runs, counting connections whose connector already saw Ok and that were not accepted before the attempt ended".into(),
+            "a connect during which the listener set changed is not judged beyond 'Ok needs a listener at some instant'".into(),
+            "reclamation is judged at checkpoints where the application owns only listeners (or nothing): un-accepted connections in a live listener's queue are first accepted and closed".into(),
+            "stream contents are C06's subject and are not compared here".into(),
+            "retx_max >= 3: the kernel carries handshake retransmit counts into the established phase (reported to C06); with smaller budgets a single SYN retransmission kills the first data flight".into(),
+        ]
+    }
+    fn budget(tier: Tier) -> u64 {
+        match tier {
+            Tier::Quick => 12_000,
+            Tier::Thorough => 300_000,
+        }
+    }
+
+    fn generate(rng: &mut Rng, _idx: u64, tier: Tier) -> Scenario {
+        gen_scenario(rng, tier)
+    }
+
+    /// Systematic single-fault placement over the recorded fault-free packet sequence.
+    fn variants(base: &Scenario, tier: Tier) -> Vec<Scenario> {
+        let mut out = vec![base.clone()];
+        if !base.faults.is_empty() {
+            return out;
+        }
+        let mut probe = base.clone();
+        probe.reuse = false;
+        let (rep, n) = run_inner(&probe, false);
+        if rep.violation.is_some() || rep.harness_error.is_some() {
+            return out;
+        }
+        let cap = if tier == Tier::Thorough { 48 } else { 24 };
+        let long = base.cfg.retx_threshold as u8 + 1;
+        for idx in 0..n.min(cap) {
+            let mut kinds = vec![FaultKind::Drop, FaultKind::Delay(long)];
+            if tier == Tier::Thorough {
+                kinds.push(FaultKind::Delay(1));
+            }
+            for k in kinds {
+                let mut v = base.clone();
+                v.faults = vec![Fault { idx, kind: k }];
+                v.reuse = base.reuse && idx % 8 == 0;
+                out.push(v);
+            }
+        }
+        out
+    }
+
+    fn run(sc: &Scenario, keep: bool) -> Report {
+        run_inner(sc, keep).0
+    }
+
+    fn shrink(sc: &Scenario) -> Vec<Scenario> {
+        let mut out = Vec::new();
+        let keep_guard = |c: &Scenario| !sc.guarded || !guard_trigger(c);
+        // drop a whole connection (its actions with it)
+        for c in (0..sc.conns.len()).rev() {
+            let mut s = sc.clone();
+            s.timeline.retain(|(_, a)| match a {
+                Act::Connect { c: x } | Act::Cancel { c: x } | Act::Write { c: x, .. } | Act::Read { c: x, .. } | Act::Shutdown { c: x, .. } | Act::Drop { c: x, .. } => *x != c,
+                _ => true,
+            });
+            out.push(s);
+        }
+        for i in 0..sc.timeline.len() {
+            if matches!(sc.timeline[i].1, Act::Connect { .. }) {
+                continue;
+            }
+            let mut s = sc.clone();
+            s.timeline.remove(i);
+            out.push(s);
+        }
+        for i in 0..sc.faults.len() {
+            let mut s = sc.clone();
+            s.faults.remove(i);
+            out.push(s);
+        }
+        for i in 0..sc.faults.len() {
+            if let FaultKind::Delay(k) = sc.faults[i].kind {
+                if k > 1 {
+                    let mut s = sc.clone();
+                    s.faults[i].kind = FaultKind::Delay(1);
+                    out.push(s);
+                }
+            }
+        }
+        if sc.reorder {
+            let mut s = sc.clone();
+            s.reorder = false;
+            out.push(s);
+        }
+        if sc.reuse {
+            let mut s = sc.clone();
+            s.reuse = false;
+            out.push(s);
+        }
+        // earlier rounds
+        for i in 0..sc.timeline.len() {
+            if sc.timeline[i].0 > 0 {
+                let mut s = sc.clone();
+                let lo = if i > 0 { s.timeline[i - 1].0 } else { 0 };
+                if lo < s.timeline[i].0 {
+                    s.timeline[i].0 = lo;
+                    out.push(s);
+                }
+            }
+        }
+        if sc.listeners.len() > 1 && !sc.conns.iter().any(|c| c.to == Some(sc.listeners.len() - 1)) && !sc.timeline.iter().any(|(_, a)| matches!(a, Act::Accept { l } | Act::DropListener { l } if *l == sc.listeners.len() - 1)) {
+            let mut s = sc.clone();
+            s.listeners.pop();
+            out.push(s);
+        }
+        if sc.hosts.len() > 2 && !sc.conns.iter().enumerate().any(|(c, x)| x.from == sc.hosts.len() - 1 && sc.timeline.iter().any(|(_, a)| matches!(a, Act::Connect { c: y } if *y == c))) {
+            let mut s = sc.clone();
+            s.hosts.pop();
+            for c in s.conns.iter_mut() {
+                if c.from >= s.hosts.len() {
+                    c.from = s.hosts.len() - 1;
+                }
+            }
+            out.push(s);
+        }
+        if sc.hosts[0].len() > 1 {
+            let mut s = sc.clone();
+            let gone = s.hosts[0].pop().unwrap();
+            if !s.listeners.iter().any(|l| l.ip == gone) {
+                out.push(s);
+            }
+        }
+        if sc.cfg.backlog < 4 {
+            let mut s = sc.clone();
+            s.cfg.backlog = 4;
+            out.push(s);
+        }
+        out.retain(keep_guard);
+        out
+    }
+
+    fn signature(sc: &Scenario) -> String {
+        format!(
+            "{}{} {} f[{}]{}{}",
+            if guard_trigger(sc) { "TRIG " } else { "" },
+            if sc.guarded { "G" } else { "U" },
+            sc.timeline
+                .iter()
+                .map(|(_, a)| match a {
+                    Act::Connect { c } => format!("C{c}"),
+                    Act::Cancel { c } => format!("X{c}"),
+                    Act::Accept { .. } => "A".into(),
+                    Act::Write { client, .. } => if *client { "w" } else { "W" }.into(),
+                    Act::Read { client, .. } => if *client { "r" } else { "R" }.into(),
+                    Act::Shutdown { client, .. } => if *client { "s" } else { "S" }.into(),
+                    Act::Drop { client, .. } => if *client { "d" } else { "D" }.into(),
+                    Act::DropListener { .. } => "L".into(),
+                })
+                .collect::<Vec<_>>()
+                .join(""),
+            sc.faults.iter().map(|f| format!("{}:{:?}", f.idx, f.kind)).collect::<Vec<_>>().join(","),
+            if sc.reorder { " reorder" } else { "" },
+            if sc.reuse { " reuse" } else { "" }
+        )
+    }
+
+    fn known_match(matcher: &str, sc: &Scenario, v: &Violation) -> bool {
+        // O8: only the classes that say "an entry of an aborted handshake stayed behind", and only
+        // when the minimised scenario still contains a connector that gives up on a live listener
+        matcher == KF_O8 && v.class.ends_with("AbortedHandshake") && guard_trigger(sc)
     }
 }
